@@ -1,7 +1,7 @@
 #!/bin/sh
 # tools/regress_seeds.sh [binary]: for every seeded change, applies it to /repo, runs the quick check named first in
 # meta.json's caught_by (with the given orchestrator binary, default target/release/verif), undoes it, and
-# reports whether it is still caught. /repo must be clean and must not be touched meanwhile.
+# reports whether it is still caught (by the generators alone: the replay tier is switched off unless VERIF_NO_CORPUS=0). /repo must be clean and must not be touched meanwhile.
 BIN=${1:-/verif/target/release/verif}
 cd /repo || exit 2
 if ! git diff --quiet; then echo "/repo has local changes; refusing"; exit 2; fi
@@ -14,7 +14,7 @@ c=m.get('caught_by')
 print(c[0] if isinstance(c,list) and c else '')")
   [ -z "$id" ] && { echo "$n SKIP (no caught_by)"; continue; }
   git apply "$d/patch.diff" 2>/dev/null || { echo "$n PATCH-DOES-NOT-APPLY"; continue; }
-  ( cd /verif && CARGO_NET_OFFLINE=true timeout 1800 $BIN $id quick > /tmp/regress_$n.log 2>&1 ); rc=$?
+  ( cd /verif && CARGO_NET_OFFLINE=true VERIF_NO_CORPUS=${VERIF_NO_CORPUS:-1} timeout 1800 $BIN $id quick > /tmp/regress_$n.log 2>&1 ); rc=$?
   git checkout -- .
   if [ $rc -eq 1 ]; then echo "$n caught by $id"; else echo "$n NOT CAUGHT by $id (rc=$rc)"; fi
 done
